@@ -1,29 +1,890 @@
+// c51 binds spec/codec/ABI.tla (property C51: contract ABI encoding round-trips and follows
+// the ABI specification) to accounts/abi.
+//
+//	-mode cases  -in cases.json    every TLC-enumerated case (argument types, bytes, verdict and
+//	                               value demanded by the specification) on abi.Arguments:
+//	                               pack cases: Pack(value) must equal the specification's bytes;
+//	                               all cases: Unpack(bytes) must reject / accept-with-value as the
+//	                               verdict says, never panic, and what it accepts must re-encode (R)
+//	-mode record -trace t.ndjson   random nested types (depth <= 4), random values, Pack and Unpack
+//	                               of canonical and mutated encodings, one event per call (V)
+//
+// Values travel in the specification's form: a static leaf is its canonical 32-byte word, bytes and
+// string are their data bytes, arrays/slices/tuples are lists.  The driver converts between that form
+// and Go values by reflection over abi.Type.GetType(); it holds no encoder or decoder of its own.
 package main
 
 import (
+	"bytes"
+	"encoding/json"
+	"flag"
 	"fmt"
+	"math/big"
+	"math/rand"
+	"os"
+	"reflect"
+	"strings"
 
 	"github.com/ethereum/go-ethereum/accounts/abi"
+	"github.com/ethereum/go-ethereum/common"
+	tl "verif/harness/tracelib"
 )
 
+// ------------------------------------------------------------------ types
+
+type ty struct {
+	K   string `json:"k"`
+	N   int    `json:"n"`
+	Sub []ty   `json:"sub"`
+}
+
+func (t ty) String() string {
+	switch t.K {
+	case "uint", "int":
+		return fmt.Sprintf("%s%d", t.K, t.N)
+	case "bytesN":
+		return fmt.Sprintf("bytes%d", t.N)
+	case "array":
+		return fmt.Sprintf("%s[%d]", t.Sub[0], t.N)
+	case "slice":
+		return t.Sub[0].String() + "[]"
+	case "tuple":
+		parts := make([]string, len(t.Sub))
+		for i, s := range t.Sub {
+			parts[i] = s.String()
+		}
+		return "(" + strings.Join(parts, ",") + ")"
+	}
+	return t.K
+}
+
+func (t ty) isDynamic() bool {
+	switch t.K {
+	case "bytes", "string", "slice":
+		return true
+	case "array":
+		return t.Sub[0].isDynamic()
+	case "tuple":
+		for _, s := range t.Sub {
+			if s.isDynamic() {
+				return true
+			}
+		}
+	}
+	return false
+}
+
+// marshaling renders the type for abi.NewType: the type string with "tuple" for the innermost
+// tuple, and that tuple's components.
+func marshaling(t ty, name string) abi.ArgumentMarshaling {
+	base := t
+	for base.K == "array" || base.K == "slice" {
+		base = base.Sub[0]
+	}
+	m := abi.ArgumentMarshaling{Name: name}
+	if base.K == "tuple" {
+		m.Type = "tuple" + dims(t)
+		for i, s := range base.Sub {
+			m.Components = append(m.Components, marshaling(s, fmt.Sprintf("f%d", i)))
+		}
+	} else {
+		m.Type = base.String() + dims(t)
+	}
+	return m
+}
+
+// dims returns the array suffixes of t, innermost dimension first (Solidity order).
+func dims(t ty) string {
+	switch t.K {
+	case "array":
+		return dims(t.Sub[0]) + fmt.Sprintf("[%d]", t.N)
+	case "slice":
+		return dims(t.Sub[0]) + "[]"
+	}
+	return ""
+}
+
+func abiArgs(ts []ty) (abi.Arguments, error) {
+	var out abi.Arguments
+	for i, t := range ts {
+		m := marshaling(t, fmt.Sprintf("a%d", i))
+		at, err := abi.NewType(m.Type, "", m.Components)
+		if err != nil {
+			return nil, fmt.Errorf("abi.NewType(%s): %v", m.Type, err)
+		}
+		out = append(out, abi.Argument{Name: m.Name, Type: at})
+	}
+	return out, nil
+}
+
+// ------------------------------------------------------------------ spec values <-> Go values
+
+// A spec value is: []byte (leaf word or bytes/string data) or []any (components).
+
+func wordToBig(w []byte, signed bool) *big.Int {
+	v := new(big.Int).SetBytes(w)
+	if signed && w[0] >= 0x80 {
+		v.Sub(v, new(big.Int).Lsh(big.NewInt(1), 256))
+	}
+	return v
+}
+
+func bigToWord(v *big.Int) []byte {
+	x := new(big.Int).Set(v)
+	if x.Sign() < 0 {
+		x.Add(x, new(big.Int).Lsh(big.NewInt(1), 256))
+	}
+	out := make([]byte, 32)
+	x.FillBytes(out)
+	return out
+}
+
+// toGo builds a Go value of Go type gt for the specification value sv of type t.
+func toGo(t ty, gt reflect.Type, sv any) (reflect.Value, error) {
+	v := reflect.New(gt).Elem()
+	switch t.K {
+	case "uint", "int":
+		w, ok := sv.([]byte)
+		if !ok || len(w) != 32 {
+			return v, fmt.Errorf("leaf word expected for %s", t)
+		}
+		b := wordToBig(w, t.K == "int")
+		switch gt.Kind() {
+		case reflect.Uint8, reflect.Uint16, reflect.Uint32, reflect.Uint64:
+			v.SetUint(b.Uint64())
+		case reflect.Int8, reflect.Int16, reflect.Int32, reflect.Int64:
+			v.SetInt(b.Int64())
+		default:
+			v.Set(reflect.ValueOf(b))
+		}
+	case "bool":
+		v.SetBool(sv.([]byte)[31] == 1)
+	case "address":
+		v.Set(reflect.ValueOf(common.BytesToAddress(sv.([]byte)[12:])))
+	case "bytesN":
+		reflect.Copy(v, reflect.ValueOf(sv.([]byte)[:t.N]))
+	case "bytes":
+		v.SetBytes(append([]byte{}, sv.([]byte)...))
+	case "string":
+		v.SetString(string(sv.([]byte)))
+	case "array", "slice":
+		xs := sv.([]any)
+		if t.K == "slice" {
+			v = reflect.MakeSlice(gt, len(xs), len(xs))
+		} else if len(xs) != t.N {
+			return v, fmt.Errorf("array length %d for %s", len(xs), t)
+		}
+		for i, x := range xs {
+			e, err := toGo(t.Sub[0], gt.Elem(), x)
+			if err != nil {
+				return v, err
+			}
+			v.Index(i).Set(e)
+		}
+	case "tuple":
+		xs := sv.([]any)
+		if len(xs) != len(t.Sub) || gt.Kind() != reflect.Struct || gt.NumField() != len(t.Sub) {
+			return v, fmt.Errorf("tuple shape mismatch for %s", t)
+		}
+		for i, x := range xs {
+			e, err := toGo(t.Sub[i], gt.Field(i).Type, x)
+			if err != nil {
+				return v, err
+			}
+			v.Field(i).Set(e)
+		}
+	default:
+		return v, fmt.Errorf("unknown kind %q", t.K)
+	}
+	return v, nil
+}
+
+// fromGo renders a Go value (as returned by Unpack) in the specification's form.
+func fromGo(t ty, v reflect.Value) (any, error) {
+	for v.Kind() == reflect.Interface {
+		v = v.Elem()
+	}
+	switch t.K {
+	case "uint", "int":
+		switch v.Kind() {
+		case reflect.Uint8, reflect.Uint16, reflect.Uint32, reflect.Uint64:
+			return bigToWord(new(big.Int).SetUint64(v.Uint())), nil
+		case reflect.Int8, reflect.Int16, reflect.Int32, reflect.Int64:
+			return bigToWord(big.NewInt(v.Int())), nil
+		}
+		b, ok := v.Interface().(*big.Int)
+		if !ok {
+			return nil, fmt.Errorf("%s decoded to %s", t, v.Type())
+		}
+		if b.BitLen() > 256 {
+			return nil, fmt.Errorf("%s decoded to a number wider than 256 bits", t)
+		}
+		return bigToWord(b), nil
+	case "bool":
+		w := make([]byte, 32)
+		if v.Bool() {
+			w[31] = 1
+		}
+		return w, nil
+	case "address":
+		a, ok := v.Interface().(common.Address)
+		if !ok {
+			return nil, fmt.Errorf("address decoded to %s", v.Type())
+		}
+		return common.LeftPadBytes(a[:], 32), nil
+	case "bytesN":
+		if v.Kind() != reflect.Array || v.Len() != t.N {
+			return nil, fmt.Errorf("%s decoded to %s", t, v.Type())
+		}
+		w := make([]byte, 32)
+		reflect.Copy(reflect.ValueOf(w), v)
+		return w, nil
+	case "bytes":
+		return append([]byte{}, v.Bytes()...), nil
+	case "string":
+		return []byte(v.String()), nil
+	case "array", "slice":
+		if t.K == "array" && v.Len() != t.N {
+			return nil, fmt.Errorf("%s decoded to length %d", t, v.Len())
+		}
+		out := make([]any, v.Len())
+		for i := range out {
+			e, err := fromGo(t.Sub[0], v.Index(i))
+			if err != nil {
+				return nil, err
+			}
+			out[i] = e
+		}
+		return out, nil
+	case "tuple":
+		if v.Kind() != reflect.Struct || v.NumField() != len(t.Sub) {
+			return nil, fmt.Errorf("%s decoded to %s", t, v.Type())
+		}
+		out := make([]any, len(t.Sub))
+		for i := range out {
+			e, err := fromGo(t.Sub[i], v.Field(i))
+			if err != nil {
+				return nil, err
+			}
+			out[i] = e
+		}
+		return out, nil
+	}
+	return nil, fmt.Errorf("unknown kind %q", t.K)
+}
+
+// parseVal converts the JSON rendering of a specification value (compact: a leaf word that is a
+// small number is printed as that number) into []byte / []any.
+func parseVal(t ty, j any) (any, error) {
+	switch t.K {
+	case "array", "slice", "tuple":
+		xs, ok := j.([]any)
+		if !ok {
+			return nil, fmt.Errorf("list expected for %s", t)
+		}
+		out := make([]any, len(xs))
+		for i, x := range xs {
+			st := t.Sub[0]
+			if t.K == "tuple" {
+				if i >= len(t.Sub) {
+					return nil, fmt.Errorf("too many components for %s", t)
+				}
+				st = t.Sub[i]
+			}
+			e, err := parseVal(st, x)
+			if err != nil {
+				return nil, err
+			}
+			out[i] = e
+		}
+		return out, nil
+	case "bytes", "string":
+		return byteList(j)
+	}
+	if n, ok := j.(float64); ok {
+		return natWord(int(n)), nil
+	}
+	return byteList(j)
+}
+
+func natWord(n int) []byte {
+	w := make([]byte, 32)
+	w[29], w[30], w[31] = byte(n>>16), byte(n>>8), byte(n)
+	return w
+}
+
+func byteList(j any) ([]byte, error) {
+	xs, ok := j.([]any)
+	if !ok {
+		return nil, fmt.Errorf("byte list expected, got %T", j)
+	}
+	out := make([]byte, len(xs))
+	for i, x := range xs {
+		f, ok := x.(float64)
+		if !ok || f < 0 || f > 255 {
+			return nil, fmt.Errorf("byte expected, got %v", x)
+		}
+		out[i] = byte(f)
+	}
+	return out, nil
+}
+
+// expandMem expands the compact memory rendering (numbers = small words, lists = raw bytes).
+func expandMem(items []any) ([]byte, error) {
+	var out []byte
+	for _, it := range items {
+		if n, ok := it.(float64); ok {
+			out = append(out, natWord(int(n))...)
+			continue
+		}
+		b, err := byteList(it)
+		if err != nil {
+			return nil, err
+		}
+		out = append(out, b...)
+	}
+	return out, nil
+}
+
+// plain renders a specification value as nested lists of numbers (for events).
+func plain(v any) any {
+	switch x := v.(type) {
+	case []byte:
+		out := make([]int, len(x))
+		for i, b := range x {
+			out[i] = int(b)
+		}
+		return out
+	case []any:
+		out := make([]any, len(x))
+		for i, e := range x {
+			out[i] = plain(e)
+		}
+		return out
+	}
+	return v
+}
+
+func specEqual(a, b any) bool {
+	switch x := a.(type) {
+	case []byte:
+		y, ok := b.([]byte)
+		return ok && bytes.Equal(x, y)
+	case []any:
+		y, ok := b.([]any)
+		if !ok || len(x) != len(y) {
+			return false
+		}
+		for i := range x {
+			if !specEqual(x[i], y[i]) {
+				return false
+			}
+		}
+		return true
+	}
+	return false
+}
+
+// ------------------------------------------------------------------ guarded calls
+
+type unpacked struct {
+	ok       bool
+	panicked string
+	err      string
+	vals     []any // specification form, when ok
+	raw      []any
+}
+
+// unpack runs Arguments.Unpack; never-panic is part of the property, so a panic is caught
+// here and reported by the caller as a violation.
+func unpack(args abi.Arguments, ts []ty, data []byte) (u unpacked) {
+	defer func() {
+		if r := recover(); r != nil {
+			u = unpacked{panicked: fmt.Sprint(r)}
+		}
+	}()
+	raw, err := args.Unpack(data)
+	if err != nil {
+		return unpacked{err: err.Error()}
+	}
+	if len(raw) != len(ts) {
+		return unpacked{ok: true, raw: raw, err: fmt.Sprintf("Unpack returned %d values for %d arguments", len(raw), len(ts))}
+	}
+	u = unpacked{ok: true, raw: raw}
+	for i, t := range ts {
+		sv, err := fromGo(t, reflect.ValueOf(raw[i]))
+		if err != nil {
+			u.err = err.Error()
+			return u
+		}
+		u.vals = append(u.vals, sv)
+	}
+	return u
+}
+
+func pack(args abi.Arguments, vals []any) (out []byte, err error) {
+	defer func() {
+		if r := recover(); r != nil {
+			err = fmt.Errorf("panic: %v", r)
+		}
+	}()
+	return args.Pack(vals...)
+}
+
+func goValues(args abi.Arguments, ts []ty, svs []any) ([]any, error) {
+	out := make([]any, len(ts))
+	for i, t := range ts {
+		v, err := toGo(t, args[i].Type.GetType(), svs[i])
+		if err != nil {
+			return nil, err
+		}
+		out[i] = v.Interface()
+	}
+	return out, nil
+}
+
+// ------------------------------------------------------------------ mode cases (R)
+
+type caseLine struct {
+	Ph      string `json:"ph"`
+	Note    string `json:"note"`
+	P       int    `json:"p"`
+	K       int    `json:"k"`
+	Args    []ty   `json:"args"`
+	Len     int    `json:"len"`
+	Mem     []any  `json:"mem"`
+	Verdict string `json:"verdict"`
+	Val     []any  `json:"val"`
+}
+
+func hasArrayOfDynamic(t ty) bool {
+	if t.K == "array" && t.Sub[0].isDynamic() {
+		return true
+	}
+	for _, s := range t.Sub {
+		if hasArrayOfDynamic(s) {
+			return true
+		}
+	}
+	return false
+}
+
+func hasOddInt(t ty) bool {
+	if (t.K == "uint" || t.K == "int") && t.N != 8 && t.N != 16 && t.N != 32 && t.N != 64 && t.N != 256 {
+		return true
+	}
+	for _, s := range t.Sub {
+		if hasOddInt(s) {
+			return true
+		}
+	}
+	return false
+}
+
+func sig(ts []ty) string {
+	p := make([]string, len(ts))
+	for i, t := range ts {
+		p[i] = t.String()
+	}
+	return strings.Join(p, ",")
+}
+
+func runCases(in string, sum *tl.Summary) {
+	var cases []caseLine
+	tl.ReadJSON(in, &cases)
+	distinct := map[string]bool{}
+	types := map[string]bool{}
+	for idx, c := range cases {
+		mem, err := expandMem(c.Mem)
+		if err != nil || len(mem) != c.Len {
+			tl.Fatal("case %d: bad memory rendering (%v, %d bytes for len %d)", idx, err, len(mem), c.Len)
+		}
+		args, err := abiArgs(c.Args)
+		if err != nil {
+			tl.Fatal("case %d: %v", idx, err)
+		}
+		s := sig(c.Args)
+		types[s] = true
+		var want []any
+		if c.Verdict != "reject" {
+			for i, t := range c.Args {
+				sv, err := parseVal(t, c.Val[i])
+				if err != nil {
+					tl.Fatal("case %d: bad value rendering: %v", idx, err)
+				}
+				want = append(want, sv)
+			}
+		}
+		sum.Evaluations++
+		sum.Count(c.Ph)
+		viol := func(desc string, extra tl.M) {
+			extra["case"] = c
+			extra["type"] = s
+			extra["bytes"] = fmt.Sprintf("%x", mem)
+			sum.Violate(fmt.Sprintf("(%s) %s case %s: %s", s, c.Ph, c.Note, desc), extra)
+		}
+		// Pack of the sample value must produce exactly the specification's bytes
+		if c.Ph == "pack" {
+			gv, err := goValues(args, c.Args, want)
+			if err != nil {
+				tl.Fatal("case %d: cannot build Go value: %v", idx, err)
+			}
+			enc, err := pack(args, gv)
+			if err != nil {
+				viol("Pack failed: "+err.Error(), tl.M{})
+			} else if !bytes.Equal(enc, mem) {
+				viol(fmt.Sprintf("Pack gives %x, the specification (ABI.tla Enc) demands %x", enc, mem), tl.M{})
+			}
+		}
+		// Unpack
+		u := unpack(args, c.Args, mem)
+		got := "reject"
+		if u.ok {
+			got = "accept"
+		}
+		key := fmt.Sprint(s, c.Ph, c.Verdict, got)
+		if !distinct[key] {
+			distinct[key] = true
+			sum.Distinct++
+		}
+		switch {
+		case u.panicked != "":
+			viol("Unpack panicked: "+u.panicked, tl.M{})
+		case u.ok && u.err != "":
+			viol("Unpack returned a value of the wrong shape: "+u.err, tl.M{})
+		case c.Verdict == "reject" && u.ok:
+			if pend := pendingFinding(c, args, mem, u); pend != "" {
+				sum.Count("pending-" + pend)
+				if sum.Counts["pending-"+pend] == 1 {
+					sum.Notes = append(sum.Notes, fmt.Sprintf("PENDING-FINDING %s: (%s) %s case: Unpack accepts %x, the specification rejects", pend, s, c.Ph, mem))
+				}
+			} else {
+				viol(fmt.Sprintf("Unpack accepts (%v) what the specification rejects", plain(u.vals)), tl.M{"got": plain(u.vals)})
+			}
+		case c.Verdict == "accept" && !u.ok:
+			viol("Unpack rejects a canonical encoding: "+u.err, tl.M{})
+		case u.ok:
+			if !specEqual(any(u.vals), any(want)) {
+				viol(fmt.Sprintf("Unpack gives %v, the specification (ABI.tla Dec) %v", plain(u.vals), plain(want)), tl.M{"got": plain(u.vals)})
+			}
+			// what was accepted re-encodes, and the re-encoding decodes to the same value
+			re, err := pack(args, u.raw)
+			if err != nil {
+				viol("accepted value does not re-encode: "+err.Error(), tl.M{})
+			} else {
+				if c.Verdict == "accept" && !bytes.HasPrefix(mem, re) {
+					viol(fmt.Sprintf("re-encoding %x is not a prefix of the canonical input", re), tl.M{})
+				}
+				u2 := unpack(args, c.Args, re)
+				if !u2.ok || !specEqual(any(u2.vals), any(u.vals)) {
+					viol(fmt.Sprintf("re-encoding %x does not decode to the same value", re), tl.M{})
+				}
+			}
+		}
+		if idx%3000 == 0 {
+			sum.Sample(tl.M{"type": s, "ph": c.Ph, "bytes": fmt.Sprintf("%x", mem), "verdict": c.Verdict, "got": got})
+		}
+	}
+	sum.Steps = sum.Evaluations
+	sum.Extra["types"] = len(types)
+	sum.Rule = "every TLC-enumerated case (argument types x sample value / mutated encoding / word string) executed on abi.Arguments Pack and Unpack; distinct = distinct (type list, case kind, verdict, outcome)"
+}
+
+// pendingFinding recognises the fingerprints of the pending findings (spec/codec/NOTES.md).
+func pendingFinding(c caseLine, args abi.Arguments, mem []byte, u unpacked) string {
+	// TODO-KNOWN-FINDING C51-F1: for T[k] with dynamic T, toGoType reads the offset word with
+	// binary.BigEndian.Uint64(word[24:]) and ignores its upper 24 bytes.  Fingerprint: some
+	// argument contains such an array, and zeroing the upper 24 bytes of one word of the input
+	// yields an input that decodes to the same value.
+	arr := false
+	odd := false
+	for _, t := range c.Args {
+		arr = arr || hasArrayOfDynamic(t)
+		odd = odd || hasOddInt(t)
+	}
+	if arr {
+		for p := 0; p+32 <= len(mem); p += 32 {
+			dirty := false
+			for _, b := range mem[p : p+24] {
+				dirty = dirty || b != 0
+			}
+			if !dirty {
+				continue
+			}
+			m2 := append([]byte{}, mem...)
+			for i := p; i < p+24; i++ {
+				m2[i] = 0
+			}
+			u2 := unpack(args, c.Args, m2)
+			if u2.ok && specEqual(any(u2.vals), any(u.vals)) {
+				return "C51-F1"
+			}
+		}
+	}
+	// TODO-KNOWN-FINDING C51-F2: ReadInteger range-checks only the widths 8/16/32/64; uintN/intN of
+	// any other width below 256 accept words outside their range.  Fingerprint: an argument
+	// contains such a type and the accepted value re-encodes to exactly the input prefix.
+	if odd {
+		if re, err := pack(args, u.raw); err == nil && bytes.HasPrefix(mem, re) {
+			return "C51-F2"
+		}
+	}
+	return ""
+}
+
+// ------------------------------------------------------------------ mode record (V)
+
+func leaf(k string, n int) ty { return ty{K: k, N: n, Sub: []ty{}} }
+
+func randType(r *rand.Rand, depth int) ty {
+	if depth == 0 || r.Intn(3) == 0 {
+		switch r.Intn(9) {
+		case 0:
+			return leaf("uint", []int{8, 16, 32, 64, 256, 256}[r.Intn(6)])
+		case 1:
+			return leaf("int", []int{8, 16, 32, 64, 256}[r.Intn(5)])
+		case 2:
+			return leaf("bool", 0)
+		case 3:
+			return leaf("address", 0)
+		case 4:
+			return leaf("bytesN", 1+r.Intn(32))
+		case 5, 6:
+			return leaf("bytes", 0)
+		case 7:
+			return leaf("string", 0)
+		default:
+			return leaf("uint", 256)
+		}
+	}
+	switch r.Intn(3) {
+	case 0:
+		return ty{K: "array", N: 1 + r.Intn(3), Sub: []ty{randType(r, depth-1)}}
+	case 1:
+		return ty{K: "slice", Sub: []ty{randType(r, depth-1)}}
+	}
+	n := 1 + r.Intn(3)
+	t := ty{K: "tuple"}
+	for i := 0; i < n; i++ {
+		t.Sub = append(t.Sub, randType(r, depth-1))
+	}
+	return t
+}
+
+func randVal(r *rand.Rand, t ty) any {
+	switch t.K {
+	case "uint":
+		w := make([]byte, 32)
+		n := t.N / 8
+		switch r.Intn(4) {
+		case 0:
+		case 1:
+			for i := 32 - n; i < 32; i++ {
+				w[i] = 0xff
+			}
+		default:
+			r.Read(w[32-n:])
+		}
+		return w
+	case "int":
+		w := make([]byte, 32)
+		n := t.N / 8
+		r.Read(w[32-n:])
+		switch r.Intn(5) {
+		case 0:
+			w = bigToWord(big.NewInt(-1))
+		case 1: // minimum
+			w = make([]byte, 32)
+			w[32-n] = 0x80
+		case 2: // maximum
+			for i := 32 - n; i < 32; i++ {
+				w[i] = 0xff
+			}
+			w[32-n] = 0x7f
+		}
+		if w[32-n] >= 0x80 {
+			for i := 0; i < 32-n; i++ {
+				w[i] = 0xff
+			}
+		}
+		return w
+	case "bool":
+		w := make([]byte, 32)
+		w[31] = byte(r.Intn(2))
+		return w
+	case "address":
+		w := make([]byte, 32)
+		r.Read(w[12:])
+		return w
+	case "bytesN":
+		w := make([]byte, 32)
+		r.Read(w[:t.N])
+		return w
+	case "bytes", "string":
+		n := []int{0, 1, 31, 32, 33, 64, 65}[r.Intn(7)]
+		if r.Intn(3) == 0 {
+			n = r.Intn(100)
+		}
+		b := make([]byte, n)
+		for i := range b {
+			b[i] = byte('a' + r.Intn(26))
+		}
+		return b
+	case "array":
+		out := make([]any, t.N)
+		for i := range out {
+			out[i] = randVal(r, t.Sub[0])
+		}
+		return out
+	case "slice":
+		out := make([]any, r.Intn(4))
+		for i := range out {
+			out[i] = randVal(r, t.Sub[0])
+		}
+		return out
+	}
+	out := make([]any, len(t.Sub))
+	for i := range out {
+		out[i] = randVal(r, t.Sub[i])
+	}
+	return out
+}
+
+func mutate(r *rand.Rand, enc []byte) ([]byte, string) {
+	m := append([]byte{}, enc...)
+	words := len(m) / 32
+	switch k := r.Intn(8); {
+	case k == 0 || words == 0:
+		return append(m, byte(r.Intn(256))), "extend"
+	case k == 1:
+		return m[:r.Intn(len(m))], "truncate"
+	case k == 2:
+		return m[:32*r.Intn(words+1)], "truncate-word"
+	case k == 3:
+		m[r.Intn(len(m))] ^= byte(1 << uint(r.Intn(8)))
+		return m, "bitflip"
+	case k == 4: // small change of a word's low bytes (offsets and lengths live there)
+		p := 32 * r.Intn(words)
+		m[p+31] += byte([]int{1, 31, 32, 33, 255}[r.Intn(5)])
+		return m, "low-byte"
+	case k == 5:
+		p := 32 * r.Intn(words)
+		copy(m[p:p+32], natWord([]int{0, 1, 32, 64, len(m) - 32, len(m), len(m) + 1}[r.Intn(7)]))
+		return m, "word"
+	case k == 6:
+		p := 32 * r.Intn(words)
+		for i := p; i < p+32; i++ {
+			m[i] = 0xff
+		}
+		return m, "ff-word"
+	default:
+		p := 32 * r.Intn(words)
+		m[p+r.Intn(29)] = byte(1 + r.Intn(255))
+		return m, "high-byte"
+	}
+}
+
+func intList(b []byte) []int {
+	out := make([]int, len(b))
+	for i, x := range b {
+		out[i] = int(x)
+	}
+	return out
+}
+
+func runRecord(path string, seed int64, n int, sum *tl.Summary) {
+	r := tl.Rand(seed)
+	tr := tl.NewTrace(path)
+	defer tr.Close()
+	shapes := map[string]bool{}
+	for i := 0; i < n; i++ {
+		var ts []ty
+		for k := 1 + r.Intn(2); k > 0; k-- {
+			ts = append(ts, randType(r, 1+r.Intn(4)))
+		}
+		args, err := abiArgs(ts)
+		if err != nil {
+			tl.Fatal("%v", err)
+		}
+		svs := make([]any, len(ts))
+		for j, t := range ts {
+			svs[j] = randVal(r, t)
+		}
+		gv, err := goValues(args, ts, svs)
+		if err != nil {
+			tl.Fatal("build value: %v", err)
+		}
+		enc, err := pack(args, gv)
+		if len(enc) > 1600 {
+			continue // keep TLC's byte sequences small
+		}
+		ev := tl.M{"op": "pack", "args": ts, "vals": plain(any(svs)), "ok": err == nil, "mem": intList(enc)}
+		tr.Emit(ev)
+		sum.Count("pack")
+		if err != nil {
+			continue
+		}
+		inputs := [][]byte{enc}
+		kinds := []string{"canonical"}
+		for k := 0; k < 3; k++ {
+			m, kind := mutate(r, enc)
+			inputs, kinds = append(inputs, m), append(kinds, kind)
+		}
+		for k, m := range inputs {
+			u := unpack(args, ts, m)
+			vals := any([]any{})
+			if u.ok && u.err == "" {
+				vals = plain(any(u.vals))
+			}
+			reenc := true
+			if u.ok {
+				re, err := pack(args, u.raw)
+				u2 := unpacked{}
+				if err == nil {
+					u2 = unpack(args, ts, re)
+				}
+				reenc = err == nil && u2.ok && specEqual(any(u2.vals), any(u.vals))
+			}
+			tr.Emit(tl.M{"op": "unpack", "args": ts, "kind": kinds[k], "mem": intList(m), "ok": u.ok && u.err == "", "panicked": u.panicked != "",
+				"shapeErr": u.ok && u.err != "", "vals": vals, "reencodes": reenc})
+			sum.Count("unpack-" + kinds[k])
+			shape := fmt.Sprint(sig(ts), kinds[k], u.ok)
+			if !shapes[shape] {
+				shapes[shape] = true
+				sum.Distinct++
+			}
+		}
+		sum.Evaluations++
+		if i < 2 {
+			sum.Sample(tl.M{"type": sig(ts), "bytes": fmt.Sprintf("%x", enc)})
+		}
+	}
+	sum.Steps = tr.N
+	sum.Traces = 1
+	sum.Rule = "random nested argument types (depth <= 4) with random values: Pack, Unpack of the encoding and of 3 mutations each; distinct = distinct (type list, input kind, accepted) combinations"
+}
+
 func main() {
-	st, _ := abi.NewType("string[2]", "", nil)
-	args := abi.Arguments{{Type: st}}
-	enc, err := args.Pack([2]string{"a", "bc"})
-	fmt.Printf("%x %v\n", enc, err)
-	enc[23] = 1 // offset word += 2^64
-	out, err := args.Unpack(enc)
-	fmt.Println(out, err)
-	// same for string[] (slice) for comparison
-	st2, _ := abi.NewType("string[]", "", nil)
-	args2 := abi.Arguments{{Type: st2}}
-	enc2, _ := args2.Pack([]string{"a", "bc"})
-	enc2[23] = 1
-	out2, err := args2.Unpack(enc2)
-	fmt.Println(out2, err)
-	// uint256[0]?
-	_, err = abi.NewType("uint256[0]", "", nil)
-	fmt.Println("uint256[0]:", err)
-	tt, err := abi.NewType("tuple", "", []abi.ArgumentMarshaling{{Name: "a", Type: "uint8"}, {Name: "b", Type: "bytes"}})
-	fmt.Println(tt.GetType(), err)
+	mode := flag.String("mode", "cases", "cases|record")
+	in := flag.String("in", "", "cases json")
+	trace := flag.String("trace", "trace.ndjson", "output trace")
+	out := flag.String("out", "summary.json", "summary output")
+	n := flag.Int("n", 100, "random type/value rounds")
+	flag.Parse()
+	seed := int64(tl.EnvInt("VERIF_SEED", 1))
+	sum := tl.NewSummary("c51", *mode, seed)
+	switch *mode {
+	case "cases":
+		sum.Mode = "replay"
+		runCases(*in, sum)
+	case "record":
+		runRecord(*trace, seed, *n, sum)
+	default:
+		tl.Fatal("bad mode")
+	}
+	sum.Write(*out)
+	_ = json.Marshal
+	if len(sum.Violations) > 0 {
+		os.Exit(1)
+	}
 }
